@@ -197,6 +197,9 @@ func runC09(c *core.Ctx) {
 						}
 					}
 				}
+				if count == 200 {
+					c.Sample("conversion", map[string]any{"fn": name, "source_amplitude": a, "result": r, "previous": []any{prevA, prevR}})
+				}
 				prevA, prevR, prevRaw, have = a, r, raw, true
 			}
 			first = false
